@@ -134,3 +134,46 @@ Definition check_epochs (x : list bool) (got : option (list (Z * Z))) : bool :=
   eqb_option eqb_runs (epochs_model x) got.
 Definition check_smooth (l got : list (Z * Z)) : bool := eqb_runs (smooth_model l) got.
 Definition check_debounce (d : Z) (l got : list (Z * Z)) : bool := eqb_runs (debounce_model d l) got.
+
+(* ====================================================================================
+   Additions of the coverage audit (nothing above is changed; no proof depends on what follows).
+
+   epochs(x, pad) for pad >= 0, as written:
+       start = ts(edge_rising(x)); end = ts(edge_falling(x))
+       for s in start: x[s-pad:s] = 1          (a NEGATIVE s-pad wraps, as any Python slice bound does)
+       for e in end:   x[e:e+pad] = 1
+       ... then exactly the pad = 0 code on the modified x (which is the CALLER's array).
+   The slices are fixed by the edges of the original x and only ever write 1, so the order of the
+   assignments does not matter. *)
+From PV Require Import Common.PySlice.
+
+Definition pad_apply (pad : Z) (x : list bool) : list bool :=
+  let x1 := fold_left (fun acc s => py_set_const (Some (s - pad)) (Some s) true acc) (rising x) x in
+  fold_left (fun acc e => py_set_const (Some e) (Some (e + pad)) true acc) (falling x) x1.
+
+Definition epochs_pad_model (pad : Z) (x : list bool) : option (list (Z * Z)) :=
+  epochs_model (pad_apply pad x).
+
+(* a read-only array: the (possibly empty) slice assignment raises as soon as there is one edge *)
+Definition epochs_ro_model (x : list bool) : option (list (Z * Z)) :=
+  match rising x, falling x with
+  | [], [] => epochs_model x
+  | _, _ => None
+  end.
+
+Fixpoint eqb_bools (a b : list bool) : bool :=
+  match a, b with
+  | [], [] => true
+  | x :: a', y :: b' => Bool.eqb x y && eqb_bools a' b'
+  | _, _ => false
+  end.
+
+(* got = the return value; xafter = the caller's array after the call *)
+Definition check_epochs_pad (pad : Z) (x xafter : list bool) (got : option (list (Z * Z))) : bool :=
+  eqb_bools (pad_apply pad x) xafter && eqb_option eqb_runs (epochs_pad_model pad x) got.
+Definition check_epochs_ro (x : list bool) (got : option (list (Z * Z))) : bool :=
+  eqb_option eqb_runs (epochs_ro_model x) got.
+
+(* edge_rising / edge_falling called directly: positions of the True entries of the masks *)
+Definition check_edges (x : list bool) (r f : list Z) : bool :=
+  eqb_listZ (rising x) r && eqb_listZ (falling x) f.
